@@ -1743,9 +1743,10 @@ def _sym_extreme(kind):
     real = builtins.max if kind == "max" else builtins.min
 
     def f(*args, **kw):
-        items = list(args[0]) if len(args) == 1 and not kw else list(args)
+        single = len(args) == 1 and not kw
+        items = list(args[0]) if single else list(args)
         if kw or not any(isinstance(a, Sym) for a in items) or any(isinstance(a, (np.ndarray, UVal)) for a in items):
-            return real(*args, **kw)
+            return real(items, **kw) if single else real(*args, **kw)     # (an iterator argument has been consumed above)
         acc = items[0]
         for x in items[1:]:
             if isinstance(acc, SBV) or isinstance(x, SBV) or isinstance(acc, SFP) or isinstance(x, SFP):
